@@ -453,13 +453,16 @@ func instrument(p pkgInfo, overlay map[string]string, stats map[string]int) {
 	if p.name == "grammar" {
 		sb.WriteString("import (\n\t\"reflect\"\n\t\"unicode\"\n\t\"unsafe\"\n)\n\n")
 	}
+	if p.name == "bexpr" {
+		sb.WriteString("import (\n\t\"reflect\"\n\t\"unsafe\"\n\n\t\"github.com/hashicorp/go-bexpr/grammar\"\n)\n\n")
+	}
 	sb.WriteString("// VerifGlobals returns pointers to every package-level variable.\nfunc VerifGlobals() map[string]any {\n\treturn map[string]any{\n")
 	for _, g := range globals {
 		fmt.Fprintf(&sb, "\t\t%q: &%s,\n", g, g)
 	}
 	sb.WriteString("\t}\n}\n")
 	if p.name == "bexpr" {
-		sb.WriteString("\n// VerifAST returns the syntax tree an Evaluator works on (C19: a tree must render the same before and after it was evaluated).\nfunc VerifAST(e *Evaluator) interface{} {\n\tif e == nil {\n\t\treturn nil\n\t}\n\treturn e.ast\n}\n")
+		sb.WriteString("\n// VerifAST returns the syntax tree an Evaluator works on (C19: a tree must render the same before and after it was evaluated).\n// The field is found by its TYPE (the first field of type grammar.Expression), not by its name: renaming it is not a reason to fail.\nfunc VerifAST(e *Evaluator) interface{} {\n\tif e == nil {\n\t\treturn nil\n\t}\n\tv := reflect.ValueOf(e).Elem()\n\twant := reflect.TypeOf((*grammar.Expression)(nil)).Elem()\n\tfor i := 0; i < v.NumField(); i++ {\n\t\tif f := v.Field(i); f.Type() == want {\n\t\t\treturn reflect.NewAt(f.Type(), unsafe.Pointer(f.UnsafeAddr())).Elem().Interface()\n\t\t}\n\t}\n\treturn nil\n}\n")
 	}
 	if p.name == "grammar" {
 		sb.WriteString(verifClassesSrc)
